@@ -104,6 +104,9 @@ type inode struct {
 	dur    []byte   // certainly on disk (immutable slice, replaced on sync)
 	pend   []pwrite // writes since the last sync of this file (append-only between syncs)
 	synced bool     // has ever been fsynced (its length is durable)
+	// durShared is set once a snapshot references dur; from then on dur must be
+	// replaced, not updated in place.
+	durShared bool
 }
 
 type dirOp struct {
@@ -440,9 +443,17 @@ func (h *handle) Sync() error {
 	}
 	h.syncs++
 	if !h.created || d.beh.SyncSyncsFile {
-		h.ino.dur = append([]byte(nil), h.ino.vol...)
-		h.ino.pend = nil
-		h.ino.synced = true
+		ino := h.ino
+		if !ino.durShared && len(ino.dur) == len(ino.vol) && ino.synced {
+			for _, w := range ino.pend {
+				copy(ino.dur[w.off:], w.data)
+			}
+		} else {
+			ino.dur = append([]byte(nil), ino.vol...)
+			ino.durShared = false
+		}
+		ino.pend = nil
+		ino.synced = true
 	}
 	dirSync := false
 	if h.created {
